@@ -30,7 +30,15 @@ var c19Plain = []string{"Int8", "Int16", "Int32", "Int64", "Int128", "Int256", "
 	"IntervalSecond", "IntervalMinute", "IntervalHour", "IntervalDay", "IntervalWeek", "IntervalMonth", "IntervalQuarter", "IntervalYear"}
 
 func c19EnumName(rng *rand.Rand) (wire, logical string) {
-	switch rng.Intn(14) {
+	switch rng.Intn(18) {
+	case 14:
+		return "Doe, John", "Doe, John"
+	case 15:
+		return "a ,b", "a ,b"
+	case 16:
+		return " ,  ", " ,  "
+	case 17:
+		return "x = 1, y", "x = 1, y"
 	case 9:
 		return `tab\tsep`, "tab\tsep"
 	case 10:
